@@ -10,9 +10,10 @@ from mc import harness, explorer
 PV = np.array([1.5, -0.5]); QV = np.array([0.75, 2.0]); CV = np.array([-1.25, 0.5])
 GS = {0: np.array([1.0, 1.0]), 1: np.array([0.5, -2.0])}
 # node -> (operands, kind)
-BUILDS = {"y1": (("p", "q"), "mul"), "h": (("p", "c"), "mul"), "y3": (("h", "h"), "mul"),
+HUGE = np.array([1e308, 1e308])
+BUILDS = {"big": (("p", "huge"), "mul"), "y1": (("p", "q"), "mul"), "h": (("p", "c"), "mul"), "y3": (("h", "h"), "mul"),
           "z": (("y1", "c"), "mul"), "z2": (("y1", "y3"), "add"), "w": (("q", "q"), "mul")}
-ORDER = ["y1", "h", "y3", "z", "z2", "w"]
+ORDER = ["y1", "h", "y3", "z", "z2", "w", "big"]      # big = p * 1e308: with g = (0.5, -2) its gradient overflows to -inf
 
 class World:
     def __init__(self):
@@ -26,9 +27,10 @@ class World:
                 s.q = nn.Parameter(sg.Tensor(QV.copy(), requires_grad=True))
         self.mod = M()
         self.opt = sg.optim.SGD(self.mod.parameters(), lr=0.1)
-        self.t = {"p": self.mod.p, "q": self.mod.q, "c": sg.Tensor(CV.copy())}
+        self.t = {"p": self.mod.p, "q": self.mod.q, "c": sg.Tensor(CV.copy()), "huge": sg.Tensor(HUGE.copy())}
         # forward-mode reference: value, d/dp, d/dq (all ops are element-wise -> diagonal Jacobians)
-        self.dual = {"p": (PV, np.ones(2), np.zeros(2)), "q": (QV, np.zeros(2), np.ones(2)), "c": (CV, np.zeros(2), np.zeros(2))}
+        self.dual = {"p": (PV, np.ones(2), np.zeros(2)), "q": (QV, np.zeros(2), np.ones(2)), "c": (CV, np.zeros(2), np.zeros(2)),
+                     "huge": (HUGE, np.zeros(2), np.zeros(2))}
         self.acc = {"p": None, "q": None}        # ledger: None = never reached and never reset
         self.retained = set()
         self.gs = []                              # (caller-owned Tensor, byte snapshot)
@@ -107,7 +109,7 @@ class World:
                 if got is None:
                     if np.any(exp != 0):
                         v("leaf-grad-missing", f"{leaf}.grad is None, ledger {exp}")
-                elif got.shape != exp.shape or not np.allclose(got, exp, rtol=1e-12, atol=1e-12):
+                elif got.shape != exp.shape or not np.allclose(got, exp, rtol=1e-12, atol=1e-12, equal_nan=True):
                     kind = "leaf-root-not-accumulated" if (e[0] == "bw" and e[1] == leaf) else "leaf-grad-differs-from-ledger"
                     v(kind, f"after {e}: {leaf}.grad={got}, sum of contributions since last reset={exp}")
             if leaf not in touched and self._grad_bytes(leaf) != before[leaf]:
